@@ -749,8 +749,20 @@ def repr_values(condition: Callable[..., bool], lambda_inspection: Optional[Cond
         recompute_visitor.visit(node=lambda_inspection.node.body)
         recomputed_values = recompute_visitor.recomputed_values
 
+        # The targets of the assignment expressions are the variables of the condition as well (and no built-ins),
+        # wherever they have been assigned, *e.g.*, in a comprehension.
+        assigned_names = dict()  # type: Dict[str, Any]
+        if sys.version_info >= (3, 8):
+            assigned_names = {
+                descendant.target.id: None
+                for descendant in ast.walk(lambda_inspection.node.body)
+                if isinstance(descendant, ast.NamedExpr)
+            }
+
         repr_visitor = Visitor(
-            recomputed_values=recomputed_values, variable_lookup=variable_lookup, atok=lambda_inspection.atok)
+            recomputed_values=recomputed_values,
+            variable_lookup=variable_lookup + [assigned_names],
+            atok=lambda_inspection.atok)
         repr_visitor.visit(node=lambda_inspection.node.body)
 
         reprs = repr_visitor.reprs
